@@ -23,6 +23,7 @@ import traceback
 from . import core, isolate
 
 CHUNK = 25
+RUN_TIMEOUT = {'quick': 150, 'thorough': 400}      # seconds of wall clock per run (runs take 0.05-3 s)
 _ADAPTER = None
 KNOWN_KEYS = frozenset()
 
@@ -52,6 +53,7 @@ def _one_run(base, i, tier):
 
 def _worker_chunk(args):
     base, idxs, tier, per_chunk_timeout = args
+    run_timeout = RUN_TIMEOUT[tier]
     ad = _ADAPTER
     out = {'n': 0, 'digests': [], 'nontrivial': [], 'stats': {}, 'violations': [], 'harness_errors': [],
            'states': [], 'diagnostics': [], 'samples': [], 'known': {}, 'run_digests': []}
@@ -61,7 +63,7 @@ def _worker_chunk(args):
             _worker_chunk._inited = True
         for i in idxs:
             try:
-                one = isolate.with_rundir(_one_run, (base, i, tier), timeout=per_chunk_timeout // 2)
+                one = isolate.with_rundir(_one_run, (base, i, tier), timeout=run_timeout)
             except isolate.ChildFailed as e:
                 if e.signal in isolate.CRASH_SIGNALS:
                     # the process executing the run was killed by a fault signal while running library code:
@@ -70,6 +72,14 @@ def _worker_chunk(args):
                     out['n'] += 1
                     out['violations'].append({'i': i, 'violation': {'oracle': 'CRASH', 'key': 'CRASH:' + name, 'step': None,
                                                                     'detail': 'the process executing this run died with ' + name},
+                                              'plan': ad.make_plan(base, i, tier)})
+                elif e.signal == isolate.HANG_SIGNAL:
+                    # the run did not finish within its (generous) wall-clock limit: a call blocked outside Python-level
+                    # loops (a lock never released, a wait) cannot trip the step budget.  Reported as a finding only
+                    # after it has hung again when re-executed alone (cmd_check); counted separately here.
+                    out['n'] += 1
+                    out['violations'].append({'i': i, 'violation': {'oracle': 'HANG', 'key': 'HANG:no result within %ds' % run_timeout,
+                                                                    'step': None, 'detail': 'the process executing this run did not finish'},
                                               'plan': ad.make_plan(base, i, tier)})
                 else:
                     out['harness_errors'].append({'i': i, 'trace': traceback.format_exc()[-2000:]})
@@ -157,7 +167,8 @@ def run_batch(adapter, tier, base, nruns, workers, soft_deadline_s, start=0):
                 agg['diagnostics'].extend(r['diagnostics'][:2])
                 agg['samples'].extend(r['samples'])
                 agg['chunks_done'] += 1
-            if len(set(v['violation']['key'] for v in agg['violations'])) >= 6 or len(agg['violations']) >= 60 or len(agg['harness_errors']) >= 5:
+            if (len(set(v['violation']['key'] for v in agg['violations'])) >= 6 or len(agg['violations']) >= 60
+                    or sum(1 for v in agg['violations'] if v['violation']['oracle'] == 'HANG') >= 2) or len(agg['harness_errors']) >= 5:
                 for f in pending:
                     f.cancel()
                 exhausted = True
